@@ -54,6 +54,9 @@ def spellings(m, U, V, x):
         "read,<<,read": lambda: _looked_at(U(x)).__lshift__(V).unit_value,
         "read,convert,read": lambda: _looked_at(U(x)).convert(V).unit_value,
         "read,Unit(q),read": lambda: V(_looked_at(U(x))).unit_value,
+        # the dimension's own conversion methods, called on ANOTHER quantity of the dimension (an instance used as converter)
+        "other.from_raw(other.to_raw(x, U), V)": lambda: (lambda o_: o_.from_raw(o_.to_raw(x, U), V))(U(3.25)),
+        "other.to_raw / q.from_raw": lambda: (lambda o_: V(1.75).from_raw(o_.to_raw(x, U), V))(V(7.5)),
     }
 
 
